@@ -466,6 +466,8 @@ def gen_mutants(seed, bases, per_class):
         deep = [s for s in ss if s[0] != base["top"]]
         iss = [s for s in inst_sites(base) if s[0] in reach]
         for cls, f in MUTATORS.items():
+            if cls in ("width_late", "index_late") and k % 2:
+                continue                 # the two late-edit classes: every second base design (wall time of the quick tier)
             for j in range(per_class):
                 rr = core.rng(seed, "C02", cls, k * 16 + j)
                 if cls == "extra":
